@@ -236,6 +236,57 @@ def _time_handle(unit, zone):
     return pf, str(df["t"].dtype)
 
 
+def h_time_annotation(iu: int, iz: int) -> bool:
+    """
+    pre: 0 <= iu <= 3 and 0 <= iz <= 2
+    post: __return__
+    """
+    # what a reader that knows only the format sees: the stored integers of a zone-aware column are UTC instants, so
+    # its TIMESTAMP annotation must say isAdjustedToUTC exactly when the column has a zone (any zone), and the legacy
+    # converted type and the logical unit must name the same unit
+    iu, iz = _pick_i(iu, 0, 3), _pick_i(iz, 0, 2)
+    from crosshair.tracers import NoTracing
+    with NoTracing():
+        return _time_annotation(iu, iz)
+
+
+def _time_annotation(iu, iz):
+    pf, _ = _time_handle(UNITS[iu], ZONES[iz])
+    se = [x for x in pf.fmd.schema if x.name == "t"][0]
+    ts = se.logicalType.TIMESTAMP if se.logicalType is not None else None
+    if ts is None:
+        return False
+    if bool(ts.isAdjustedToUTC) != (ZONES[iz] is not None):
+        return False
+    unit = [k for k, v in ts.unit._asdict().items() if v is not None]
+    legacy = {parquet_thrift.ConvertedType.TIMESTAMP_MILLIS: "MILLIS",
+              parquet_thrift.ConvertedType.TIMESTAMP_MICROS: "MICROS", None: None}.get(se.converted_type, "?")
+    return len(unit) == 1 and (legacy is None or legacy == unit[0])
+
+
+def replay_h_time_annotation(iu, iz):
+    import shutil, tempfile, os
+    import pandas as pd
+    import fastparquet
+    d = tempfile.mkdtemp(prefix="c02-")
+    try:
+        unit, zone = UNITS[iu], ZONES[iz]
+        t = pd.Series(np.array([0, 1000000000], dtype="int64").astype("M8[s]").astype("M8[%s]" % unit))
+        if zone:
+            t = t.dt.tz_localize("UTC").dt.tz_convert(zone)
+        fn = os.path.join(d, "t.parq")
+        fastparquet.write(fn, pd.DataFrame({"t": t}))
+        se = [x for x in fastparquet.ParquetFile(fn).fmd.schema if x.name == "t"][0]
+        flag = bool(se.logicalType.TIMESTAMP.isAdjustedToUTC)
+        if flag != (zone is not None):
+            return True, ("a datetime64[%s%s] column is written with TIMESTAMP(isAdjustedToUTC=%s) although the stored "
+                          "integers are %s" % (unit, ", " + zone if zone else "", flag,
+                                               "UTC instants" if zone else "local wall-clock values"))
+        return False, "annotation matches the stored integers"
+    finally:
+        shutil.rmtree(d, ignore_errors=True)
+
+
 AS_INDEX = [False]
 
 
